@@ -28,6 +28,7 @@ def run(ctx):
     # captured and literal numbers are emitted exactly (shared with C16.R1)
     from rules import c16
     ctx.rule("C05.L10", "numbers in emitted function source are printed exactly: f64 Display without precision, or precision 0 dominated by fract() == 0", floor=6)
+    c16.decimal_literals_are_floats(ctx, "C05.L10", core)
     pf = P.printer_fns(core)
     for pn in sorted(pf):
         if not pn.startswith("blots_core::ast_to_source::"):
